@@ -188,3 +188,91 @@ def group_laws(seed, n_per, kinds=('R2', 'R3', 'SE2', 'SE3')):
 
 from graphslam.pose.se2 import PoseSE2  # noqa: E402
 from graphslam.pose.se3 import PoseSE3  # noqa: E402
+
+
+# ------------------------------------------------------------------------------------------------
+# C11: manifold invariants on the implementation (float drift is a soak TEST, not a theorem)
+def manifold_invariants(seed, n, chain_len=None):
+    import numpy as np
+    from graphslam.graph import Graph
+    from graphslam.vertex import Vertex
+    from graphslam.edge.edge_odometry import EdgeOdometry
+    rng = random.Random(seed)
+    fails, evals = [], 0
+    chain_len = chain_len or (200 if n <= 50 else 10000)
+
+    def bad(what, data):
+        fails.append(dict(data, law=what, **{'class': data.get('class', 'SE2')}))
+    # SE(2) angles
+    for i in range(n * 5):
+        evals += 1
+        c = rng.choice(['big', 'oddpi', 'uniform'])
+        if c == 'big':
+            th = rng.uniform(-1e6, 1e6)
+        elif c == 'oddpi':
+            m = (2 * rng.randint(-50, 50) + 1) * math.pi
+            th = rng.choice([m, math.nextafter(m, 1e9), math.nextafter(m, -1e9), m + rng.uniform(-1e-9, 1e-9)])
+        else:
+            th = rng.uniform(-7, 7)
+        th2 = rng.uniform(-1e3, 1e3)
+        A = PoseSE2([rng.gauss(0, 5), rng.gauss(0, 5)], th)
+        B = PoseSE2([rng.gauss(0, 5), rng.gauss(0, 5)], th2)
+        for nm, P, exact in (('new', A, th), ('oplus', A + B, th + th2), ('ominus', A - B, th - th2), ('inverse', A.inverse, -th),
+                             ('boxplus', A + np.array([0.1, 0.2, th2]), th + th2), ('copy', A.copy(), th)):
+            ang = float(P[2])
+            if not (-math.pi <= ang <= math.pi):
+                bad('SE2 angle out of [-pi,pi] after ' + nm, {'class': 'SE2', 'theta': th, 'theta2': th2, 'angle': ang})
+            if abs(math.sin((ang - exact) / 2.0)) > 1e-9 * max(1.0, abs(th), abs(th2)):
+                bad('SE2 angle not congruent to the exact angle after ' + nm, {'class': 'SE2', 'theta': th, 'theta2': th2, 'angle': ang, 'exact': exact})
+    # SE(3) chains
+    for i in range(max(1, n // 10)):
+        evals += 1
+        P = make_pose('SE3', cp.gen_pose_vals(rng, 'SE3', 'typical'))
+        for j in range(chain_len):
+            q = cp.gen_quat(rng, 'typical' if rng.random() < 0.7 else 'adversarial')
+            nq = math.sqrt(sum(x * x for x in q)); q = [x / nq for x in q]
+            O = PoseSE3([rng.gauss(0, 1) for _ in range(3)], q)
+            c = rng.randrange(6)
+            if c == 0: P = P + O
+            elif c == 1: P = O + P
+            elif c == 2: P = P - O
+            elif c == 3: P = O - P
+            elif c == 4: P = P.inverse
+            else: P = P + np.array(cp.gen_arr(rng, 6, 'typical'))
+            P = PoseSE3([0, 0, 0], P[3:])   # keep translations bounded; quaternion untouched
+        nn = float(np.linalg.norm(P[3:]))
+        if not abs(nn - 1.0) <= 1e-9:
+            bad('SE3 quaternion norm drifted to %r after %d operations' % (nn, chain_len), {'class': 'SE3', 'seed': seed, 'chain': i})
+    # optimizer runs keep unit quaternions
+    for i in range(max(1, n // 20)):
+        evals += 1
+        nv = rng.randint(3, 6)
+        truth = [make_pose('SE3', [j * 1.0, 0.1 * j, 0] + cp.gen_quat(rng, 'typical')) for j in range(nv)]
+        vs = [Vertex(j, make_pose('SE3', [float(x) + rng.gauss(0, .05) for x in np.asarray(truth[j])[:3]] + [float(x) for x in np.asarray(truth[j])[3:]])) for j in range(nv)]
+        es = []
+        for j in range(nv - 1):
+            z = truth[j + 1] - truth[j]
+            es.append(EdgeOdometry([j, j + 1], np.eye(6), z))
+        z = truth[nv - 1] - truth[0]
+        es.append(EdgeOdometry([0, nv - 1], np.eye(6), z))
+        g = Graph(es, vs)
+        iters = rng.randint(1, 50 if n > 50 else 8)
+        try:
+            g.optimize(tol=0.0, max_iter=iters, verbose=False)
+        except Exception as ex:  # noqa
+            bad('optimize raised %r' % (ex,), {'class': 'SE3', 'seed': seed, 'graph': i}); continue
+        for v in vs:
+            nn = float(np.linalg.norm(v.pose[3:]))
+            if not abs(nn - 1.0) <= 1e-9:
+                bad('vertex quaternion norm %r after %d iterations' % (nn, iters), {'class': 'SE3', 'seed': seed, 'graph': i})
+                break
+    # normalize
+    for i in range(n):
+        evals += 1
+        q = [rng.gauss(0, 1) * rng.choice([1e-3, 1.0, 1e3]) for _ in range(4)]
+        P = PoseSE3([1.0, 2.0, 3.0], q)
+        R0 = hom('SE3', P.to_array())
+        P.normalize()
+        if abs(float(np.linalg.norm(P[3:])) - 1) > 1e-12 or P[6] < 0 or not np.allclose(hom('SE3', P.to_array()), R0, atol=1e-9):
+            bad('normalize', {'class': 'SE3', 'q': q, 'result': [float(x) for x in P]})
+    return evals, fails
